@@ -35,6 +35,8 @@ func (c *Contracts) prelude(uses []string, forSolver string) (string, []string) 
 			fmt.Fprintf(&sb, "(declare-fun %s %s %s)\n", d.Name, d.SX.List[2].String(), d.SX.List[3].String())
 		case "const":
 			fmt.Fprintf(&sb, "(declare-fun %s () %s)\n", d.Name, d.SX.List[2].String())
+		case "fnconst", "typeconst":
+			fmt.Fprintf(&sb, "(define-fun %s () Int %s)\n", d.Name, c.constID[d.Name])
 		case "spec":
 			h := d.SX.List[1]
 			var ps []string
